@@ -47,7 +47,9 @@ fn main() {
     pverif::panics::install();
     let code = std::panic::catch_unwind(std::panic::AssertUnwindSafe(|| match prop.as_str() {
         "C01" => pverif::c01::run(tier, seed, replay),
+        "C04" => pverif::c04::run(tier, seed, replay),
         "C05" => pverif::c05::run(tier, seed, replay),
+        "C09" => pverif::c09::run(tier, seed, replay),
         "C11" => pverif::c11::run(tier, seed, replay),
         "C14" => pverif::c14::run(tier, seed, replay),
         _ => {
